@@ -11,6 +11,9 @@ Only the *assembly / write-back / totalisation skeleton* is decided (a deliberat
   C02.total     inventories are totalised over all parts: cxxSystem::totalize adds every element-carrying part with
                 coefficient 1 (solution incl. H, O and charge); each entity's totalize() clears its totals and adds every
                 component in one unconditional loop (charge included where the component carries a charge balance)
+  C02.samemodel the `same model` shortcut of prep(): every structure entry save_model stores is compared by check_same_model with an
+                unconditional `!=` against the same source expression (and the lengths are compared); the saved identity reads the names
+                of every class the setup_<kind> functions build unknowns from (solid solution and its components)
 NOT decided: the arithmetic inside add_*/x*_save/totalize callees (dropped term, wrong coefficient or sign), non-negativity.
 """
 import json
@@ -139,8 +142,149 @@ def models_rule(P, R, RULE="C02.models"):
         R.anchor_missing(RULE, "only %d tests on the DDL / CCM surface models found" % n)
 
 
+def samemodel_rule(P, R):
+    """prep() skips build_model() when check_same_model() says the structure of the previous calculation is unchanged; quick_setup()
+    then only reloads amounts into the unknowns already built.  A wrong `same` verdict solves one system and stores the result in
+    another: elements are lost and created (seen for solid solutions of equal name and other end-members).  Decided structurally:
+    (a) pairing: every entry save_model() stores in a vector member of `last_model` is compared by check_same_model() with an
+        unconditional `!=` against the same source expression, and the vector's size is compared too (a weakened comparison -
+        an added conjunct - lets a changed structure pass);
+    (b) identity: the classes whose names the setup_<kind> function reads to create unknowns are classes whose names both
+        save_model and check_same_model read (directly or through a helper in prep.cpp): the saved identity reaches down to the
+        level the unknowns are built from (solid solution AND its components)."""
+    from .. import shape as SH
+    RULE = "C02.samemodel"
+    R.rule(RULE, "save_model / check_same_model: every stored structure entry is compared unconditionally; the saved identity covers the classes the unknowns are built from", minimum=10)
+    sv = P.one("Phreeqc::save_model")
+    ck = P.one("Phreeqc::check_same_model")
+    where = dict(file=ck["file"], function=ck["q"])
+    DELIBERATE = {"si": "saturation-index targets are reloaded by quick_setup on every reuse (C03.quick); the comparison is commented out on purpose"}
+
+    def model_member(n):
+        """last_model.<m>[i] -> m"""
+        n = T.strip_casts(n)
+        if n[0] == "Call" and T.callee_name(n) == "operator[]" and n[4]:
+            b = T.strip_casts(n[4][0])
+            if b[0] == "Member" and b[2].startswith("Model::"):
+                return b[2].split("::")[-1]
+        return None
+
+    def norm(e):
+        # the source expression with loop variables abstracted
+        return SH.shape(e, {}) if hasattr(SH, "shape") else T.text(e)
+    stores = {}
+    for x in T.walk(sv["body"]):
+        if x[0] == "Bin" and x[2] == "=" and model_member(x[3]):
+            stores.setdefault(model_member(x[3]), []).append(x)
+        if x[0] == "Call" and (T.callee_q(x) or "").endswith("::operator=") and x[4] and model_member(x[4][0]):
+            stores.setdefault(model_member(x[4][0]), []).append(["Bin", x[1], "=", x[4][0], x[4][1]])
+    if len(stores) < 6:
+        R.anchor_missing(RULE, "save_model: only %d vector members of last_model are stored (7 confirmed)" % len(stores))
+        return
+    # comparisons in check_same_model
+    comps = {}
+    for x in T.walk(ck["body"]):
+        if x[0] != "If":
+            continue
+        c = T.strip_casts(x[2])
+        for y in T.walk(c):
+            if y[0] == "Bin" and y[2] == "!=" and (model_member(y[3]) or model_member(y[4])):
+                m = model_member(y[3]) or model_member(y[4])
+                other = y[4] if model_member(y[3]) else y[3]
+                comps.setdefault(m, []).append((x, c, y, other))
+            if y[0] == "Call" and T.callee_name(y) in ("operator!=",) and y[4] and (model_member(y[4][0]) or (len(y[4]) > 1 and model_member(y[4][1]))):
+                m = model_member(y[4][0]) or model_member(y[4][1])
+                other = y[4][1] if model_member(y[4][0]) else y[4][0]
+                comps.setdefault(m, []).append((x, c, y, other))
+
+    def src_text(e):
+        import re
+        return re.sub(r"\b[ijk]\b", "#", T.text(e).replace(" ", ""))
+    for m, sts in sorted(stores.items()):
+        inst = "pair:%s" % m
+        if m in DELIBERATE:
+            R.ok(RULE, inst, "not compared on purpose: " + DELIBERATE[m])
+            continue
+        if m not in comps:
+            R.violation(RULE, inst, "save_model stores last_model.%s but check_same_model never compares it: a change of this part of the structure is taken for the same model" % m,
+                        line=ck["line"], **where)
+            continue
+        want = src_text(sts[0][4])
+        good = None
+        weak = None
+        for x, c, y, other in comps[m]:
+            if src_text(other) != want:
+                continue
+            if c is y or T.strip_casts(c) is y:
+                good = x
+            else:
+                weak = (x, c)
+        if good is not None:
+            R.ok(RULE, inst, "compared with `!= %s`, unconditionally" % want[:60])
+        elif weak is not None:
+            R.violation(RULE, inst, "the comparison of last_model.%s is weakened by a further condition (`%s`): a structure that differs in this entry can pass as the same model"
+                        % (m, T.text(weak[1])[:110]), line=weak[0][1], **where)
+        else:
+            R.violation(RULE, inst, "check_same_model compares last_model.%s with `%s`, save_model stored `%s`: the two sides of the comparison are not the same quantity"
+                        % (m, src_text(comps[m][0][3])[:70], want[:70]), line=comps[m][0][0][1], **where)
+        # the size of the vector is compared
+        def is_size_of_member(e):
+            return any(yy[0] == "Call" and T.callee_name(yy) == "size" and T.is_node(yy[3]) and T.strip_casts(yy[3])[0] == "Member"
+                       and T.strip_casts(yy[3])[2] == "Model::" + m for yy in T.walk(e))
+        sz = False
+        for x in T.walk(ck["body"]):
+            if x[0] == "If":
+                for yy in T.walk(x[2]):
+                    if yy[0] == "Bin" and yy[2] == "!=" and (is_size_of_member(yy[3]) != is_size_of_member(yy[4])) \
+                            and any(T.callee_name(c) == "size" for c in T.calls(yy[4] if is_size_of_member(yy[3]) else yy[3])):
+                        sz = True
+        if sz or m == "add_formula":
+            R.ok(RULE, "size:%s" % m, "length compared" if sz else "parallel to pp_assemblage")
+        else:
+            R.violation(RULE, "size:%s" % m, "the length of last_model.%s is never compared: an added or removed entry is taken for the same model" % m, line=ck["line"], **where)
+    # (b) identity classes
+    ENT = ("cxxSS", "cxxSScomp", "cxxPPassemblageComp", "cxxGasComp", "cxxSurfaceComp", "cxxSurfaceCharge")
+
+    def named_classes(q):
+        out, seen = set(), set()
+
+        def rec(f, d):
+            if f["key"] in seen:
+                return
+            seen.add(f["key"])
+            for c in T.calls(f["body"]):
+                cq = T.callee_q(c) or ""
+                cls = cq.rsplit("::", 1)[0]
+                if cls in ENT and "string" in str(c[2].get("ret", "")):
+                    out.add(cls)
+                if d > 0:
+                    for g in P.fns_named(cq):
+                        if g.get("body") and g["file"].endswith("prep.cpp") and not g["q"].startswith("Phreeqc::"):
+                            rec(g, d - 1)
+        for f in P.fns_named(q):
+            if f.get("body"):
+                rec(f, 1)
+        return out
+    saved, checked = named_classes("Phreeqc::save_model"), named_classes("Phreeqc::check_same_model")
+    for q in ("Phreeqc::setup_ss_assemblage", "Phreeqc::setup_pure_phases", "Phreeqc::setup_surface"):
+        if not P.fns_named(q):
+            R.anchor_missing(RULE, "%s not found" % q)
+            continue
+        need = named_classes(q)
+        inst = "identity:%s" % q.split("::")[-1]
+        miss = sorted(need - (saved & checked))
+        if not need:
+            R.anchor_missing(RULE, "%s reads no entity names (extractor change?)" % q)
+        elif miss:
+            R.violation(RULE, inst, "%s builds unknowns from the names of %s, but the saved model identity does not read the names of %s: two calculations that differ only there "
+                        "are taken for the same model and solved with each other's unknowns" % (q.split("::")[-1], ", ".join(sorted(need)), ", ".join(miss)), line=ck["line"], **where)
+        else:
+            R.ok(RULE, inst, "names of %s are part of the saved identity" % ", ".join(sorted(need)))
+
+
 def run(P, R, tier):
     K = KN.get(P)
+    samemodel_rule(P, R)
     models_rule(P, R)
     bind_rule(P, R, K)
     stage_rule(P, R)
